@@ -5,6 +5,7 @@ import XzVerif.Props.C17
 #print axioms Props.C17.C17_expansion_accounting
 #print axioms Props.C17.C17_lzma2_no_expansion
 #print axioms Props.C17.C17_lzma2_no_expansion_hashtable4
+#print axioms Props.C17.C17_lzma2_no_expansion_bintree
 #print axioms Props.C17.C17_run_proposal_inside_the_ring
 #print axioms Props.C17.C17_run_proposal_at_the_ring_end
 #print axioms Props.C17.C17_run_compresses_partial
